@@ -23,7 +23,8 @@ L3_ASSUME = [
     "time.AfterFunc/Timer.Stop contract: callback runs at most once, not before its deadline, never after a successful Stop",
     "uuid.NewV4 returns fresh distinct ids; instants lie in (0, 2^62) ns; start_delay < 2^61 ns",
     "apex/log calls are no-ops",
-    "one focal pipeline with two tasks a->b; histories of at most K events over at most N jobs",
+    "one focal pipeline with tasks a->b and an independent task c; histories of at most K events over at most N jobs",
+    "step run (C05, C15): one ScheduleAsync from an arbitrary state of up to N jobs (running / waiting with or without pending timer / finished / canceled) that satisfies the representation invariants asserted by the BMC; covers states no short history reaches (e.g. 3 waiting + 2 running)",
 ]
 
 D = "github.com/Flowpack/prunner/definition"
@@ -62,6 +63,8 @@ SELFTEST = {"pkg": P, "harness": ["harness/prunner"], "entry": "VerifSelfTest", 
 
 COMPOSITE = step("VerifComposite", {}, {}, reach=["verdict.success", "verdict.failure", "fail-fast", "allowed-failure", "cancel-acknowledged", "end"], flags={"preempt": 0})
 
+C05STEP = step("VerifC05Step", {"N": 4}, {"N": 5}, reach=["sched.start", "sched.append", "sched.replace", "sched.reject-full", "sched.reject-noqueue", "three-waiting", "two-running", "end"])
+
 CHECKS = {
     "C01": {"prefixes": ["C01."], "assumptions": L3_ASSUME, "validate_samples": {"quick": 1, "thorough": 3},
             "runs": [bmc({"K": 4, "N": 4}, {"K": 5, "N": 4}, reach=["spawn.concurrent>1", "end"]), bmcB(reach=["end"])]},
@@ -75,14 +78,14 @@ CHECKS = {
     "C04": {"prefixes": ["C04."], "assumptions": L3_ASSUME + L2_ASSUME, "validate_samples": {"quick": 1, "thorough": 3},
             "runs": [bmc({"K": 4, "N": 4}, {"K": 5, "N": 4}, reach=["cancel.waiting", "cancel.running", "cancel.already-canceled", "cancel.completed"]), bmcB(reach=["cancel.already-canceled", "cancel.completed"]), L2RUN, L2RUN3, COMPOSITE]},
     "C05": {"prefixes": ["C05."], "assumptions": L3_ASSUME, "validate_samples": {"quick": 1, "thorough": 3},
-            "runs": [bmc({"K": 4, "N": 4}, {"K": 5, "N": 4}, reach=["sched.start", "sched.append", "sched.replace", "sched.reject-full", "sched.reject-noqueue"]), bmcB(reach=["sched.replace"])]},
+            "runs": [bmc({"K": 4, "N": 4}, {"K": 5, "N": 4}, reach=["sched.start", "sched.append", "sched.replace", "sched.reject-full", "sched.reject-noqueue"]), bmcB(reach=["sched.replace"]), C05STEP]},
     "C06": {"prefixes": ["C06."], "assumptions": L3_ASSUME, "validate_samples": {"quick": 1, "thorough": 3},
             "runs": [bmc({"K": 4, "N": 4}, {"K": 5, "N": 4}, reach=["spawn.third-or-later-job"]), bmcB(reach=["spawn.third-or-later-job", "state.three-waiting"])]},
     "C07": {"prefixes": ["C07."], "assumptions": L3_ASSUME, "validate_samples": {"quick": 1, "thorough": 3},
             "runs": [bmc({"K": 4, "N": 4}, {"K": 5, "N": 4}, reach=["sched.delayed", "spawn.delayed-job", "sched.replace"]), bmcB(reach=["spawn.delayed-job", "sched.replace"])]},
     "C15": {"prefixes": ["C15."], "assumptions": L3_ASSUME, "validate_samples": {"quick": 1, "thorough": 3},
             "runs": [bmc({"K": 4, "N": 4}, {"K": 5, "N": 4}, reach=["end"]),
-                     step("VerifC02Graph", {"tasks": 2}, {"tasks": 3}, reach=["cyclic", "acyclic"]), SELFTEST]},
+                     step("VerifC02Graph", {"tasks": 2}, {"tasks": 3}, reach=["cyclic", "acyclic"]), SELFTEST, C05STEP]},
     "C16": {"prefixes": ["C16."], "assumptions": L3_ASSUME, "validate_samples": {"quick": 1, "thorough": 3},
             "runs": [bmc({"K": 4, "N": 3, "reloads": 1, "reservedvar": 0, "taskerr": 0}, {"K": 5, "N": 3, "reloads": 1, "taskerr": 0}, reach=["reload"])]},
     "C17": {"prefixes": ["C17."],
